@@ -224,6 +224,30 @@ impl C05 {
                         }
                     }
                 }
+                // a set compared with itself (the very same object on both sides, as on the diagonal of an
+                // all-vs-all loop): still the full |A|x|A| matrix of the user's (possibly asymmetric) f
+                if !a.is_empty() {
+                    let m: Vec<Vec<f64>> = a.iter().map(|x| a.iter().map(|y| f64::from(sim.value(*x, *y))).collect()).collect();
+                    let exp = model(&m, w);
+                    out.bucket("same_object_on_both_sides");
+                    bump(&mut out.events, "HpoSet::similarity");
+                    bump(&mut out.events, "GroupSimilarity::calculate");
+                    match (guard(|| sa.similarity(&sa, ByRef(&sim), *comb)), guard(|| GroupSimilarity::new(*comb, ByRef(&sim)).calculate(&sa, &sa))) {
+                        (Ok(v), Ok(v2)) => {
+                            out.check(close(v, exp), "C05", &format!("set_similarity_same_object/{name}"), || {
+                                format!("{name}(A,A) with A = {a:?} (one object) = {v}, model on the |A|x|A| matrix = {exp}")
+                            });
+                            out.check(v.to_bits() == v2.to_bits(), "C05", "group_similarity_twin", || format!("HpoSet::similarity {v} != GroupSimilarity::calculate {v2} (same object)"));
+                        }
+                        (x, y) => {
+                            for r in [x, y] {
+                                if let Err(p) = r {
+                                    out.violate("C05", &format!("panic:set_similarity/{name}"), format!("(A,A) A={a:?}: {} at {}", p.message, p.location));
+                                }
+                            }
+                        }
+                    }
+                }
                 if sim.symmetric && !a.is_empty() && !b.is_empty() {
                     let x = sa.similarity(&sb, ByRef(&sim), *comb);
                     let y = sb.similarity(&sa, ByRef(&sim), *comb);
@@ -251,6 +275,68 @@ impl C05 {
     }
 }
 
+impl C05 {
+    /// sets at the documented size limit (65 535 members) against tiny sets, and sets beyond it
+    /// against the empty set (result 0 by definition, no matrix involved)
+    fn huge_case(&self, rng: &mut Rng, thorough: bool, out: &mut CaseOut) -> Json {
+        let n_terms = 65_600 + rng.urange(0, 300);
+        let ids: Vec<u32> = (2..(2 + n_terms as u32)).collect();
+        let ont = flat_ontology(&ids);
+        let sim = TableSim { seed: rng.next_u64(), symmetric: false, mode: rng.next_u64(), calls: RefCell::new(vec![]) };
+        let pick = |n: usize, r: &mut Rng| -> Vec<u32> {
+            let start = r.urange(0, ids.len() - n);
+            ids[start..start + n].to_vec()
+        };
+        let small_n = rng.urange(1, 3);
+        let shapes: Vec<(usize, usize)> = vec![(65_535, 1), (65_535 - small_n, small_n + rng.urange(1, 4)), (20_000, 2), (ids.len(), 0), (65_536, 0), (65_535, 0)];
+        // the library walks a wide matrix (few rows, many columns) in time quadratic in the number of
+        // columns: the (small, huge) argument order is affordable only in the thorough tier
+        let wide_limit = if thorough { usize::MAX } else { 20_000 };
+        let mut desc = Vec::new();
+        for (na, nb) in shapes {
+            let a = pick(na, rng);
+            let b = pick(nb, rng);
+            desc.push(Json::obj().set("size_a", Json::us(na)).set("size_b", Json::us(nb)));
+            out.bucket(if nb == 0 { if na > 65_535 { "huge/more_than_65535_vs_empty" } else { "huge/65535_vs_empty" } } else if na + nb > 65_535 { "huge/sizes_sum_above_65535" } else { "huge/other" });
+            let sa = HpoSet::new(&ont, HpoGroup::from(a.clone()));
+            let sb = HpoSet::new(&ont, HpoGroup::from(b.clone()));
+            for (w, (comb, name)) in COMBINERS.iter().enumerate() {
+                for (first, second, fa, fb) in [(&sa, &sb, &a, &b), (&sb, &sa, &b, &a)] {
+                    if !fa.is_empty() && fa.len() < fb.len() && fb.len() > wide_limit {
+                        continue;
+                    }
+                    let exp = if fa.is_empty() || fb.is_empty() {
+                        0.0
+                    } else {
+                        let m: Vec<Vec<f64>> = fa.iter().map(|x| fb.iter().map(|y| f64::from(sim.value(*x, *y))).collect()).collect();
+                        model(&m, w)
+                    };
+                    sim.calls.borrow_mut().clear();
+                    bump(&mut out.events, "HpoSet::similarity");
+                    bump(&mut out.events, "GroupSimilarity::calculate");
+                    let got = guard(|| first.similarity(second, ByRef(&sim), *comb));
+                    let got2 = guard(|| GroupSimilarity::new(*comb, ByRef(&sim)).calculate(first, second));
+                    for (api, g) in [("HpoSet::similarity", got), ("GroupSimilarity::calculate", got2)] {
+                        match g {
+                            Ok(v) => {
+                                if fa.is_empty() || fb.is_empty() {
+                                    out.check(v == 0.0, "C05", &format!("empty_set_not_zero/{name}"), || format!("{api} {name}(|A|={}, |B|={}) = {v}", fa.len(), fb.len()));
+                                } else {
+                                    out.check(close(v, exp), "C05", &format!("set_similarity/{name}"), || {
+                                        format!("{api} {name}(|A|={}, |B|={}) = {v}, model on the matrix = {exp}", fa.len(), fb.len())
+                                    });
+                                }
+                            }
+                            Err(p) => out.violate("C05", &format!("panic:set_similarity/{name}"), format!("{api} (|A|={}, |B|={}): {} at {}", fa.len(), fb.len(), p.message, p.location)),
+                        }
+                    }
+                }
+            }
+        }
+        Json::obj().set("kind", Json::s("sets at and beyond the 65 535 limit")).set("terms", Json::us(n_terms)).set("set_pairs", Json::Arr(desc))
+    }
+}
+
 impl Monitor for C05 {
     fn id(&self) -> &'static str {
         "C05"
@@ -262,7 +348,7 @@ impl Monitor for C05 {
             .into()
     }
     fn assumptions(&self) -> Vec<String> {
-        vec!["matrix values are finite (NaN ordering is outside the statement); sizes <= u16::MAX".into(), "f32 result vs f64 model at 1e-4*max(1,|v|)".into()]
+        vec!["matrix values are finite (NaN ordering is outside the statement); each set has at most 65 535 members unless the other one is empty".into(), "f32 result vs f64 model at 1e-4*max(1,|v|)".into()]
     }
     fn plan(&self, tier: Tier) -> Vec<String> {
         let mut v = Vec::new();
@@ -275,6 +361,9 @@ impl Monitor for C05 {
         for (r, c) in [(1, 40), (40, 1), (30, 31), (31, 30), (31, 31), (2, 255), (256, 2), (64, 64)] {
             v.push(format!("shape:{r}:{c}"));
         }
+        for i in 0..tier.pick(1, 4) {
+            v.push(format!("huge:{i}"));
+        }
         for i in 0..tier.pick(10_000, 200_000) {
             v.push(format!("rndm:{i}"));
         }
@@ -284,7 +373,7 @@ impl Monitor for C05 {
         v
     }
     fn mandatory_buckets(&self, _tier: Tier) -> Vec<String> {
-        ["shape/square", "shape/vector", "shape/rectangular", "shape/empty", "similarity/asymmetric", "similarity/symmetric", "set_shape/empty_side", "set_shape/rectangular", "set_shape/square"]
+        ["shape/square", "shape/vector", "shape/rectangular", "shape/empty", "similarity/asymmetric", "similarity/symmetric", "set_shape/empty_side", "set_shape/rectangular", "set_shape/square", "same_object_on_both_sides", "huge/more_than_65535_vs_empty", "huge/sizes_sum_above_65535"]
             .iter()
             .map(|s| (*s).to_string())
             .collect()
@@ -292,7 +381,7 @@ impl Monitor for C05 {
     fn extra_coverage(&self, _tier: Tier, _b: &BTreeMap<String, u64>) -> Vec<(String, Json)> {
         vec![("exhaustive_subspace".into(), Json::s("all 169 matrix shapes r,c in 0..=12 are covered in every run; contents are sampled"))]
     }
-    fn run_case(&self, label: &str, seed: u64, _tier: Tier) -> CaseOut {
+    fn run_case(&self, label: &str, seed: u64, tier: Tier) -> CaseOut {
         let mut out = CaseOut::new();
         let mut rng = Rng::for_case(seed, "C05", label);
         let parts: Vec<&str> = label.split(':').collect();
@@ -308,6 +397,13 @@ impl Monitor for C05 {
                 out.sig = hash_u64s(&[r as u64, c as u64, r2.next_u64()]);
                 out.nontrivial = r > 0 && c > 0;
                 out.case = Json::obj().set("kind", Json::s("raw matrix")).set("rows", Json::us(r)).set("cols", Json::us(c));
+            }
+            "huge" => {
+                let mut r2 = rng.clone();
+                let c = self.huge_case(&mut rng, matches!(tier, Tier::Thorough), &mut out);
+                out.sig = hash_u64s(&[0x4095, r2.next_u64()]);
+                out.nontrivial = true;
+                out.case = c;
             }
             _ => {
                 let mut r2 = rng.clone();
